@@ -79,7 +79,7 @@ class MockCA:
         self.script = []
         self.reqno = 0
         self.handshakes = []
-        self.forgotten = set()
+        self.forgotten = {}
         self._mk_chain()
         self._start()
 
@@ -179,7 +179,7 @@ class MockCA:
                 a = self.accounts.pop(i, None)
                 if a:
                     self.by_key.pop(a["spki"], None)
-                    self.forgotten.add(i)
+                    self.forgotten[i] = a
             self.trace.emit({"src": "ca", "ev": "CaForget", "ep": self.name, "accounts": ids})
 
     def acct_url(self, i):
@@ -261,9 +261,10 @@ class MockCA:
             v["kid_known"] = acct is not None
             v["acct"] = acct
             v["kid_acct"] = acct
-            for i in self.forgotten:
+            for i, a in self.forgotten.items():
                 if self.acct_url(i) == hdr["kid"]:
                     v["kid_acct"] = i
+                    jwk = a["jwk"]   # judged against the key the CA held when it dropped the account
         if jwk is not None:
             r = self.vc.call("jws_verify", jwk=jwk, alg=str(hdr.get("alg")), protected=j["protected"],
                              payload=j["payload"], signature=j["signature"])
